@@ -3,6 +3,7 @@ module verifharness
 go 1.20
 
 require (
+	github.com/jhump/protoreflect v1.16.0
 	github.com/tableauio/tableau v0.0.0
 	github.com/xuri/excelize/v2 v2.6.1
 	google.golang.org/protobuf v1.34.2
@@ -16,7 +17,6 @@ require (
 	github.com/cloudwego/base64x v0.1.5 // indirect
 	github.com/emirpasic/gods v1.18.1 // indirect
 	github.com/golang/protobuf v1.5.4 // indirect
-	github.com/jhump/protoreflect v1.16.0 // indirect
 	github.com/klauspost/cpuid/v2 v2.0.9 // indirect
 	github.com/mitchellh/go-wordwrap v1.0.1 // indirect
 	github.com/mohae/deepcopy v0.0.0-20170929034955-c48cc78d4826 // indirect
